@@ -482,6 +482,14 @@ func (vc *VC) trCall(e *ECall, env *specEnv, c *Clause) sval {
 		t := vc.resolveType(ty.Text, env.pkg, c)
 		v := vc.tr(e.Args[1], env, c)
 		return sval{term: vc.boxTerm(t, v.term), typ: types.NewInterfaceType(nil, nil)}
+	case "iscopy":
+		argN(2)
+		x, y := vc.tr(e.Args[0], env, c), vc.tr(e.Args[1], env, c)
+		if x.typ == nil {
+			vc.specFail(c, "iscopy needs a typed first argument")
+		}
+		key := vc.iscopyKey(x.typ)
+		return boolv(nestedSelect(env.st.get(key), []string{x.term, y.term}))
 	case "fresh":
 		argN(1)
 		x := vc.tr(e.Args[0], env, c)
